@@ -368,7 +368,7 @@ func sortOps(ops []winOp) {
 
 var c07Programs = []string{
 	"find all 'ab'", "find all word start 'ab' word end", "find all line start any", "find all any line end", "find all 'a' at least 0 any 'zz'", "find all 'a' at least 0 any fewest 'zz'",
-	"find all 'a' at least 1 any fewest 'b'", "find all (any = x) 'b' x", "replace all 'ab' with 'X' value", "find all whole line", "find all not line start 'ab'",
+	"find all 'a' at least 1 any fewest 'b'", "find all (any = x) 'b' x", "replace all 'ab' with 'X' value", "find all whole line", "find all not line start 'ab'", "find all whole file", "find all caseless 'AB'", "find all caseless 'Ab' any", "find all file start any",
 	"replace all 'ab' with 'X'\nfind all 'ab'", "find all 'a'\nreplace all 'b' with 'c' value\nfind skip 1 any 'b'", "replace all 'a' with ''\nreplace all 'b' with 'B'",
 	"find last 2 'b' maybe '\\n'", "find all 'ab' file end", "find all file start any", "find skip 1 take 2 in 'a', 'b'",
 }
